@@ -4,12 +4,13 @@
 //
 // Protocol lines:
 //
-//	run <tee> <explicit> <domain> <state0> <rr> <rt> <others> <clear> <prot> <oracle>  -> <trace> <outcome>
+//	run <tee> <explicit> <domain> <remote> <state0> <rr> <rt> <others> <clear> <prot> <oracle>  -> <trace> <outcome>
 //	sni <explicit> <sessions>                                      -> <names>
 //
 // tee: 0 off, 1 TeeIn, 2 TeeOut, 3 both (the model only distinguishes 0 / not 0).
 // explicit: StartTLS(cfg) with ServerName explicit.example / StartTLS(nil).
-// domain: index of the domain of the session's own address.
+// domain: index of the domainpart of the session's own address (origin);
+// remote: of the remote address (location) — equal or different.
 // state0: initial SessionState (decimal).  rr, rt: two behaviours of features.go
 // that C02 does not constrain and that are probed once per run (see ctx).
 // others: id.nec.proh.negotiable,…  — instrumented features besides STARTTLS.
@@ -117,7 +118,7 @@ func answerClass(sc scenario) string {
 }
 
 func (c *ctx) line(sc scenario, res result) string {
-	return fmt.Sprintf("run %d %s %d %d %s %s %s %s %s %s", sc.tee, common.B(sc.explicit), sc.domain, sc.state0, common.B(c.rr), common.B(c.rt),
+	return fmt.Sprintf("run %d %s %d %d %d %s %s %s %s %s %s", sc.tee, common.B(sc.explicit), sc.domain, sc.remote, sc.state0, common.B(c.rr), common.B(c.rt),
 		sc.othersField(), sc.clearField(), sc.protField(), res.oracleField())
 }
 
@@ -144,7 +145,7 @@ func (c *ctx) check(sc scenario, tees []int, class string) (base result) {
 	emit := func(sc scenario, res result) []string {
 		l := c.line(sc, res)
 		r.Line(l, res.trace()+" "+res.outcome)
-		return []string{r.Prop + " " + l}
+		return caseLines(r.Prop, l, sc)
 	}
 	oracle := func(sc scenario, res result, lines []string) {
 		teeK := "tee0"
@@ -154,6 +155,22 @@ func (c *ctx) check(sc scenario, tees []int, class string) (base result) {
 		if res.stalled || res.panicked != "" {
 			r.Fail("terminates", teeK+"/"+key, lines, res.outcome+" "+res.panicked)
 			return
+		}
+		// "when no TLS configuration was supplied the handshake names the domain of that
+		// session's own address": the server name offered is the domainpart of the session's
+		// OWN address (origin), not of the remote one (location), whatever else is configured
+		for _, n := range res.sni {
+			wantN := domains[sc.domain]
+			if sc.explicit {
+				wantN = "explicit.example"
+			}
+			if n != wantN {
+				k := "single/other-name"
+				if !sc.explicit && n == domains[sc.remote] {
+					k = "single/names-remote-address"
+				}
+				r.Fail("servername", k, lines, fmt.Sprintf("the server name offered is %q; it must be the domainpart of the session's own address %s: %q (remote address: %s)", n, sc.originStr(), wantN, domains[sc.remote]))
+			}
 		}
 		if !compliant {
 			return
@@ -174,16 +191,6 @@ func (c *ctx) check(sc scenario, tees []int, class string) (base result) {
 		if strings.HasPrefix(res.outcome, "done.") {
 			if f := strings.Split(res.outcome, "."); res.state&uint8(xmpp.Secure) == 0 || len(f) < 3 || f[2] != "1" {
 				r.Fail("ready-in-clear", teeK+"/"+key, lines, fmt.Sprintf("NewSession returned nil error, state %d, outcome %s, clear-text writes %v", res.state, res.outcome, res.clearEv))
-			}
-		}
-		// the handshake names the domain of this session's own address
-		for _, n := range res.sni {
-			wantN := domains[sc.domain]
-			if sc.explicit {
-				wantN = "explicit.example"
-			}
-			if n != wantN {
-				r.Fail("servername", teeK+"/single", lines, fmt.Sprintf("ClientHello names %q, want %q", n, wantN))
 			}
 		}
 	}
@@ -250,8 +257,70 @@ func lastField(outcome string, done bool) string {
 // pipelined checks the clause about clear text received before the layer
 // switch: the same script with and without extra clear text behind <proceed/>
 // in the same segment must behave identically.
+// caseLines: the protocol line of a scenario plus, as a comment the replay understands, how
+// its units were split across reads (the model does not see that).
+func caseLines(prop, line string, sc scenario) []string {
+	out := []string{prop + " " + line}
+	if sc.split != nil {
+		var f []string
+		for _, n := range sc.split {
+			f = append(f, strconv.Itoa(n))
+		}
+		out = append(out, "#split="+strings.Join(f, ","))
+	}
+	return out
+}
+
+// pipelinedOf reports whether sp is sc with extra clear text behind the first <proceed/> that
+// ends a segment (and nothing else changed).
+func pipelinedOf(sc, sp scenario) bool {
+	if len(sc.clear) != len(sp.clear) || sc.protField() != sp.protField() || sc.othersField() != sp.othersField() ||
+		sc.domain != sp.domain || sc.remote != sp.remote || sc.explicit != sp.explicit || sc.state0 != sp.state0 {
+		return false
+	}
+	found := false
+	for i := range sc.clear {
+		a, b := sc.clear[i], sp.clear[i]
+		switch {
+		case len(a) == len(b):
+			for k := range a {
+				if a[k].String() != b[k].String() {
+					return false
+				}
+			}
+		case !found && len(b) > len(a) && len(a) > 0 && a[len(a)-1].kind == 'P':
+			for k := range a {
+				if a[k].String() != b[k].String() {
+					return false
+				}
+			}
+			found = true
+		default:
+			return false
+		}
+	}
+	return found
+}
+
+// comparePair evaluates the pre-buffer clause on a script and the same script with clear text
+// pipelined behind <proceed/>: they must behave identically.
+func (c *ctx) comparePair(sc, sp scenario, base, res result) {
+	if res.outcome == base.outcome && res.trace() == base.trace() && bytes.Equal(res.prot, base.prot) {
+		return
+	}
+	k := "-"
+	for i := range sc.clear {
+		if len(sp.clear[i]) > len(sc.clear[i]) {
+			k = string(sp.clear[i][len(sc.clear[i])].kind)
+			break
+		}
+	}
+	lines := append(caseLines(c.r.Prop, c.line(sc, base), sc), caseLines(c.r.Prop, c.line(sp, res), sp)...)
+	c.r.Fail("prebuffer-dropped", "pipelined/"+k, lines,
+		fmt.Sprintf("clear text received before the TLS layer was installed is interpreted afterwards: with it pipelined behind <proceed/>: %s %s; without: %s %s", res.trace(), res.outcome, base.trace(), base.outcome))
+}
+
 func (c *ctx) pipelined(sc scenario, extra []unit, tees []int, class string) {
-	r := c.r
 	base := c.check(sc, tees, class)
 	sp := sc
 	sp.clear = nil
@@ -268,30 +337,32 @@ func (c *ctx) pipelined(sc scenario, extra []unit, tees []int, class string) {
 		return
 	}
 	res := c.check(sp, tees, class+"-pipelined")
-	if res.outcome != base.outcome || res.trace() != base.trace() || !bytes.Equal(res.prot, base.prot) {
-		k := "-"
-		if len(extra) > 0 {
-			k = string(extra[0].kind)
-		}
-		r.Fail("prebuffer-dropped", "pipelined/"+k, []string{r.Prop + " " + c.line(sc, base), r.Prop + " " + c.line(sp, res)},
-			fmt.Sprintf("with clear text pipelined behind <proceed/>: %s %s; without: %s %s", res.trace(), res.outcome, base.trace(), base.outcome))
-	}
+	c.comparePair(sc, sp, base, res)
 }
 
 // ---- sni: one feature value, many sessions ------------------------------------------------
 
 type sess struct {
-	domain int
+	domain int  // own domain (origin)
+	remote int  // remote domain (location)
+	s2s    bool // server-to-server session (origin is a bare domain)
 	kind   byte // p: advertised, proceed; x: not advertised (forced), proceed; f: failure; n: header refused
+}
+
+func mkSess(domain, remote int, kind byte) sess {
+	return sess{domain: domain, remote: remote, kind: kind}
 }
 
 func (c *ctx) sni(explicit bool, ss []sess, class string) {
 	r := c.r
 	base := xmpp.StartTLS(c.tlsConfig(explicit))
 	var names, fields []string
-	bad := -1
+	bad, badRemote := -1, false
 	for i, s := range ss {
-		sc := scenario{domain: s.domain, explicit: explicit}
+		sc := scenario{domain: s.domain, remote: s.remote, explicit: explicit}
+		if s.s2s {
+			sc.state0 = uint8(xmpp.S2S)
+		}
 		switch s.kind {
 		case 'p':
 			sc.clear = [][]unit{{hdr(true), list(it(0, true))}, {u('P')}}
@@ -317,6 +388,7 @@ func (c *ctx) sni(explicit bool, ss []sess, class string) {
 			}
 			if n != want && bad < 0 {
 				bad = i
+				badRemote = !explicit && n == domains[s.remote]
 			}
 			switch {
 			case n == "explicit.example":
@@ -330,18 +402,21 @@ func (c *ctx) sni(explicit bool, ss []sess, class string) {
 			}
 		}
 		names = append(names, n)
-		fields = append(fields, fmt.Sprintf("%d.%c", s.domain, s.kind))
+		fields = append(fields, fmt.Sprintf("%d.%d.%s.%c", s.domain, s.remote, common.B(s.s2s), s.kind))
 	}
 	line := fmt.Sprintf("sni %s %s", common.B(explicit), common.Join(fields, ","))
 	r.Line(line, common.Join(names, ","))
 	r.Case(line, true, class)
 	if bad >= 0 {
 		k := "later-session-offers-earlier-domain"
-		if bad == 0 {
+		switch {
+		case badRemote:
+			k = "names-remote-address"
+		case bad == 0:
 			k = "first-session"
 		}
 		r.Fail("servername", "reuse/"+k, []string{r.Prop + " " + line},
-			fmt.Sprintf("sessions %v offered server names %v", fields, names))
+			fmt.Sprintf("sessions (own.remote.s2s.kind) %v offered server names %v: the server name offered must be the domainpart of each session's own address", fields, names))
 	}
 }
 
@@ -393,9 +468,22 @@ func (c *ctx) corpus(tees []int) {
 	c.check(scenario{clear: [][]unit{{hdr(true), list()}}}, []int{1, 2, 3}, "corpus")
 	c.check(scenario{clear: [][]unit{{hdr(true), list(item{id: 9, req: true, ok: true})}}}, []int{1, 2, 3}, "corpus")
 	// 2. one feature value, two domains (starttls.go: default config captured)
-	c.sni(false, []sess{{0, 'p'}, {1, 'p'}}, "corpus")
-	c.sni(false, []sess{{0, 'f'}, {1, 'x'}, {2, 'p'}}, "corpus")
-	c.sni(true, []sess{{0, 'p'}, {1, 'p'}}, "corpus")
+	c.sni(false, []sess{mkSess(0, 0, 'p'), mkSess(1, 1, 'p')}, "corpus")
+	c.sni(false, []sess{mkSess(0, 0, 'f'), mkSess(1, 1, 'x'), mkSess(2, 2, 'p')}, "corpus")
+	c.sni(true, []sess{mkSess(0, 0, 'p'), mkSess(1, 1, 'p')}, "corpus")
+	// own address and remote address with different domainparts: an account on a hosted
+	// domain (NewSession with an explicit location), and server-to-server sessions
+	c.sni(false, []sess{mkSess(0, 1, 'p')}, "corpus")
+	c.sni(false, []sess{mkSess(0, 1, 'x'), mkSess(0, 0, 'p'), mkSess(2, 3, 'p'), mkSess(3, 2, 'p')}, "corpus")
+	c.sni(false, []sess{{domain: 0, remote: 1, s2s: true, kind: 'p'}, {domain: 1, remote: 0, s2s: true, kind: 'x'}, {domain: 2, remote: 2, s2s: true, kind: 'p'}}, "corpus")
+	c.sni(true, []sess{mkSess(0, 1, 'p'), {domain: 2, remote: 3, s2s: true, kind: 'p'}}, "corpus")
+	for d := 0; d < 4; d++ {
+		for rm := 0; rm < 4; rm++ {
+			for _, s2s := range []bool{false, true} {
+				c.sni(false, []sess{{domain: d, remote: rm, s2s: s2s, kind: 'p'}, {domain: rm, remote: d, s2s: !s2s, kind: 'x'}}, "corpus-address-pairs")
+			}
+		}
+	}
 	// 3. optional STARTTLS refused (features.go: error of a voluntary feature overwritten)
 	for _, a := range []byte{'F', 'G', 'O', 'W', 'E'} {
 		c.check(scenario{clear: [][]unit{{hdr(true), list(it(0, false))}, {u(a)}}}, tees, "corpus")
@@ -466,7 +554,7 @@ func (c *ctx) exhaustive(tees []int) {
 							continue
 						}
 						sc := scenario{others: []other{f1}, clear: segs(one, h, f, a), prot: p,
-							results: []negRes{{mask: 2}, {mask: 0}}, domain: n % 4, explicit: n%3 == 0}
+							results: []negRes{{mask: 2}, {mask: 0}}, domain: n % 4, remote: (n / 4) % 4, explicit: n%3 == 0}
 						if n%2 == 1 {
 							sc = useFeature2(sc, f2)
 						}
@@ -536,6 +624,10 @@ func (c *ctx) random(n int, tees []int) {
 	kinds := []byte{'P', 'F', 'E', 'G', 'O', 'W', 'M'}
 	for i := 0; i < n; i++ {
 		sc := scenario{domain: rnd.Intn(4), explicit: rnd.Chance(1, 3)}
+		sc.remote = sc.domain
+		if rnd.Bool() {
+			sc.remote = rnd.Intn(4)
+		}
 		if rnd.Chance(1, 6) {
 			sc.state0 = []uint8{2, 64, 66}[rnd.Intn(3)] // Authn, S2S
 		}
@@ -667,7 +759,12 @@ func (c *ctx) random(n int, tees []int) {
 			var ss []sess
 			ns := 1 + rnd.Intn(4)
 			for k := 0; k < ns; k++ {
-				ss = append(ss, sess{domain: rnd.Intn(4), kind: "ppxfn"[rnd.Intn(5)]})
+				s := sess{domain: rnd.Intn(4), kind: "ppxfn"[rnd.Intn(5)], s2s: rnd.Chance(1, 3)}
+				s.remote = s.domain
+				if rnd.Bool() {
+					s.remote = rnd.Intn(4)
+				}
+				ss = append(ss, s)
 			}
 			c.sni(rnd.Chance(1, 4), ss, "random-sni")
 		}
@@ -681,7 +778,10 @@ func (c *ctx) random(n int, tees []int) {
 func (c *ctx) deep(n int, tees []int) {
 	rnd := c.r.Rnd
 	for i := 0; i < n; i++ {
-		sc := scenario{domain: rnd.Intn(4), explicit: rnd.Chance(1, 3)}
+		sc := scenario{domain: rnd.Intn(4), remote: rnd.Intn(4), explicit: rnd.Chance(1, 3)}
+		if rnd.Chance(1, 4) {
+			sc.state0 = uint8(xmpp.S2S)
+		}
 		for k := 1; k <= 3; k++ {
 			o := other{id: k, nec: 1, negotiable: true}
 			if rnd.Chance(1, 4) {
@@ -742,19 +842,50 @@ func Run(r *common.Run) error {
 		if err != nil {
 			return err
 		}
+		// every op of the replayed case is executed again exactly as it was emitted: the run
+		// lines with their tee variants (and the split of their units, kept in a comment),
+		// adjacent pairs that are a script and its pipelined version are compared under the
+		// pre-buffer clause, sni lines with their histories
+		var scs []scenario
+		for _, l := range lines {
+			if strings.HasPrefix(l, "#split=") && len(scs) > 0 {
+				var sp []int
+				for _, x := range strings.Split(strings.TrimPrefix(l, "#split="), ",") {
+					n, _ := strconv.Atoi(x)
+					sp = append(sp, n)
+				}
+				scs[len(scs)-1].split = sp
+				continue
+			}
+			f := strings.Fields(l)
+			if len(f) >= 3 && f[0] == "C02" && f[1] == "run" {
+				sc, err := parseScenario(f[2:])
+				if err != nil {
+					return err
+				}
+				scs = append(scs, sc)
+			}
+		}
+		var results []result
+		for _, sc := range scs {
+			results = append(results, c.check(sc, all, "replay"))
+		}
+		for i := 0; i+1 < len(scs); i++ {
+			if pipelinedOf(scs[i], scs[i+1]) {
+				a, b := scs[i], scs[i+1]
+				a.tee, b.tee = 0, 0
+				c.comparePair(a, b, results[i], results[i+1])
+			}
+		}
+		for _, sc := range scs {
+			c.pipelined(sc, []unit{hdr(true), list()}, all, "replay")
+		}
 		for _, l := range lines {
 			f := strings.Fields(l)
 			if len(f) < 3 || f[0] != "C02" {
 				continue
 			}
 			switch f[1] {
-			case "run":
-				sc, err := parseScenario(f[2:])
-				if err != nil {
-					return err
-				}
-				c.check(sc, all, "replay")
-				c.pipelined(sc, []unit{hdr(true), list()}, all, "replay")
 			case "sni":
 				if len(f) < 4 {
 					continue
@@ -762,11 +893,15 @@ func Run(r *common.Run) error {
 				var ss []sess
 				for _, s := range strings.Split(f[3], ",") {
 					p := strings.Split(s, ".")
-					if len(p) != 2 || len(p[1]) != 1 {
-						continue
+					switch {
+					case len(p) == 2 && len(p[1]) == 1: // line written before remote/s2s were added
+						d, _ := strconv.Atoi(p[0])
+						ss = append(ss, mkSess(d%4, d%4, p[1][0]))
+					case len(p) == 4 && len(p[3]) == 1:
+						d, _ := strconv.Atoi(p[0])
+						rm, _ := strconv.Atoi(p[1])
+						ss = append(ss, sess{domain: d % 4, remote: rm % 4, s2s: p[2] == "1", kind: p[3][0]})
 					}
-					d, _ := strconv.Atoi(p[0])
-					ss = append(ss, sess{domain: d % 4, kind: p[1][0]})
 				}
 				c.sni(f[2] == "1", ss, "replay")
 			}
